@@ -196,6 +196,7 @@ func (cl *simCluster) deliver(observer *simNode, m pilosa.Message) error {
 	if err != nil {
 		return err
 	}
+	c27NoteSent(m, buf[1:])
 	return observer.api.ClusterMessage(context.Background(), bytes.NewReader(buf))
 }
 
